@@ -48,7 +48,7 @@ var c18Repo = c18Params{sqlRel: "sql", enumType: "ForeignKeyReferentialAction", 
 	rowType: "Row", typeIface: "Type", compareMethod: "Compare", mapperType: "ForeignKeyRowMapper", mappingType: "ChildParentMapping",
 	refType: "ForeignKeyReferenceHandler", checkFn: "CheckReference", refCheckFns: []string{"ForeignKeyEditor.Update", "ForeignKeyHandler.Insert"},
 	selfRefFn: "ForeignKeyConstraint.IsSelfReferential",
-	floors:    map[string]int{"C18-D1": 12, "C18-D2": 4, "C18-D3": 8, "C18-D4": 1, "C18-W": 3, "C18-K": 14}}
+	floors:    map[string]int{"C18-D1": 12, "C18-D2": 4, "C18-D3": 8, "C18-D4": 1, "C18-W": 3, "C18-W2": 2, "C18-K": 14}}
 
 func init() {
 	register(&Property{
@@ -60,7 +60,8 @@ func init() {
 			"(D4) Update and Delete treat the same actions as restricting / acting; " +
 			"(W) every plan node type whose rowexec builder constructs a DML iterator (an iterator that edits rows through field-held editors: InsertInto, Update, DeleteFrom) has a case in analyzer.applyForeignKeysToNodes whose arm wires a plan.ForeignKeyHandler in; " +
 			"(K) the key-change gates, folded over every key of 0..3 columns with each column's sql.Type.Compare(old,new) abstracted to 0 / <0 / >0 / error (and ChildParentMapping entries of -1): every On<Op>… handler called by the dispatch reaches its child-row lookup (the ForeignKeyRowMapper method returning a RowIter) iff at least ONE referenced column changed for UPDATE and unconditionally for DELETE, returns comparison errors, and compares the old with the new value of the column the loop is at; the (bool,error) predicates the handlers gate on (ColumnsUpdated) are true iff some referenced column changed; " +
-			"ForeignKeyEditor.Update calls CheckReference on the NEW row for every reference of which some column changed and ForeignKeyHandler.Insert for every reference, before the underlying edit on every path, and a failing check or comparison fails the edit; CheckReference accepts a parentless self-referencing row iff ALL its key columns equal the referenced columns.",
+			"ForeignKeyEditor.Update calls CheckReference on the NEW row for every reference of which some column changed and ForeignKeyHandler.Insert for every reference, before the underlying edit on every path, and a failing check or comparison fails the edit; CheckReference accepts a parentless self-referencing row iff ALL its key columns equal the referenced columns. " +
+			"(W2) node MODES: for every field of a rowexec row-editing iterator through which Delete or Update is called on an sql.EditOpenerCloser (insertIter.replacer.Delete, insertIter.updater.Update) and that the node's builder fills from a local assigned under conditions on the plan node (ii.IsReplace, ii.OnDupExprs.HasUpdates()), every truth assignment of the node-rooted boolean atoms under which the builder may fill the field must, in the node's arm of applyForeignKeysToNodes, may-reach a call of a function that installs the parent-side referential actions (transitively writes a non-nil ForeignKeyEditor.RefActions); branches on the atoms are decided by the assignment, every other branch may go either way: a mode without such a path deletes/updates parent rows with no RESTRICT / CASCADE / SET NULL handling.",
 		NotCovered: "which child rows a cascade touches (the row the child lookup is keyed by, the values written to the children), depth limits and cycles, the NULL / MATCH FULL rules and the parent lookup inside CheckReference, that an unchanged key skips the child-side check (only 'changed => checked' is demanded there), TRUNCATE (validated separately by processTruncate), foreign_key_checks = 0",
 		Technique:  "enum-dispatch folding over go/constant + CFG ordering + who-constructs cross-check between rowexec builders and the analyzer's type switch + finite-domain folding (eng_mini with unrolled key loops) of the key-change gates",
 		Run:        func(c *Ctx) { runC18(c, c18Repo) },
@@ -148,6 +149,7 @@ func runC18(c *Ctx, p c18Params) {
 	}
 	if p.analyzerRel != "" {
 		c18Wiring(c, p, oc)
+		c18ModeWiring(c, p, oc, p.floors["C18-W2"])
 	}
 	if p.mapperType != "" {
 		runC18K(c, p, oc)
